@@ -61,6 +61,9 @@ def containers(rng, name, blob, tier):
         xb = gen.xz_blocks_bytes(blob, max(bsz, 1), "crc64" if bsz != 4096 else "crc32") if len(blob) > 8192 or bsz == 4096 else None
         if xb:
             forms.append(("xz-blocks%d" % bsz, {name + ".xz": xb}, name + ".xz"))
+        xm = gen.xz_blocks_bytes(blob, max(bsz, 4096), "crc64", threads=2) if len(blob) > 8192 or bsz == 4096 else None
+        if xm:
+            forms.append(("xz-mt-blocks%d" % bsz, {name + ".xz": xm}, name + ".xz"))
     for bid, indep, ck, cs in ([(4, True, False, False), (4, False, True, True)] if tier == "quick" else
                                [(4, True, False, False), (4, False, True, True), (5, True, True, False), (6, False, False, True), (7, True, False, False)]):
         forms.append(("lz4-b%d-%s" % (bid, "i" if indep else "l"), {name + ".lz4": gen.lz4_bytes(blob, bid, indep, ck, cs)}, name + ".lz4"))
